@@ -619,12 +619,13 @@ def user_operator_statement : Prop :=
     userOpParam ct ps lc d = some p → (paramAlts p).contains (.cls pc .nil) = true → subclassOf ct rc pc = true →
     tryStepAny ct ps (.cls lc .nil) op (.cls rc .nil) = pyUserOpTy ct lc op
 
-/-- The part that holds on the code: the operand's class is the parameter class or has it among its DIRECT bases (what
-    `try_operation` looks at, traits.py:211-223). The operand's own declarations of the operator are irrelevant. -/
+/-- The part that holds on the code: the operand's class is the parameter class or has it among the classes `try_operation` looks
+    at (traits.py:211-223; `operandCandidates`: the DIRECT bases as the source reads today). The operand's own declarations of the
+    operator are irrelevant. -/
 theorem user_operator_partial {ct : ClassTable} {ps : OpParams} {lc rc pc d : Str} {op : BOp} {m : Member} {p : Ty}
     (hl : (findClass ct lc).isSome = true) (hd : lookup op.token Dunder.operators = some d) (hm : memberOf ct lc d = some m)
     (hk : m.callable = true) (hp : userOpParam ct ps lc d = some p) (hpc : (paramAlts p).contains (.cls pc .nil) = true)
-    (hr : rc = pc ∨ pc ∈ directBases ct rc) :
+    (hr : rc = pc ∨ pc ∈ operandCandidates ct rc) :
     tryStepAny ct ps (.cls lc .nil) op (.cls rc .nil) = pyUserOpTy ct lc op := by
   have hpy : pyUserOpTy ct lc op = some m.ty := by simp [pyUserOpTy, hd, hm, hk]
   rw [hpy]
@@ -637,7 +638,7 @@ theorem user_operator_partial {ct : ClassTable} {ps : OpParams} {lc rc pc d : St
     · rw [if_neg hc]
       rcases hr with rfl | hb
       · exact absurd hpc hc
-      · have hany : (directBases ct rc).any (fun b => (paramAlts p).contains (.cls b .nil)) = true :=
+      · have hany : (operandCandidates ct rc).any (fun b => (paramAlts p).contains (.cls b .nil)) = true :=
           List.any_eq_true.mpr ⟨pc, hb, hpc⟩
         rw [if_pos hany]
   · have hs' : op.selects = false := by simpa using hs
@@ -650,7 +651,7 @@ theorem sound_user_operator {ct : ClassTable} {W : World} {ps : OpParams} {lc rc
     (hW : WorldConf ct W) (hx : Conf ct x (.cls lc .nil)) (_hy : Conf ct y (.cls rc .nil))
     (hl : (findClass ct lc).isSome = true) (hd : lookup op.token Dunder.operators = some d) (hm : memberOf ct lc d = some m)
     (hk : m.kind = .method) (hp : userOpParam ct ps lc d = some p) (hpc : (paramAlts p).contains (.cls pc .nil) = true)
-    (hr : rc = pc ∨ pc ∈ directBases ct rc) (hev : evalUserOp W x op y = .ok v) :
+    (hr : rc = pc ∨ pc ∈ operandCandidates ct rc) (hev : evalUserOp W x op y = .ok v) :
     ∃ T, tryStepAny ct ps (.cls lc .nil) op (.cls rc .nil) = some T ∧ Conf ct v T := by
   have hc : m.callable = true := by simp [Member.callable, hk]
   refine ⟨m.ty, ?_, ?_⟩
@@ -672,18 +673,41 @@ example : WorldConf opWitness.1 opWorld ∧
 /-- non-vacuity of `user_operator_partial`: `nu + bg` (one level) is typed `Num`, like CPython's `Num.__add__(nu, bg)` -/
 example : tryStepAny opWitness.1 opWitness.2 (.cls ['N', 'u', 'm'] .nil) .add (.cls ['B', 'i', 'g'] .nil) = some (.cls ['N', 'u', 'm'] .nil) ∧
     pyUserOpTy opWitness.1 ['N', 'u', 'm'] .add = some (.cls ['N', 'u', 'm'] .nil) ∧
-    ['N', 'u', 'm'] ∈ directBases opWitness.1 ['B', 'i', 'g'] := by decide +kernel
+    ['N', 'u', 'm'] ∈ operandCandidates opWitness.1 ['B', 'i', 'g'] := by decide +kernel
 
-/-- Known finding operator-operand-indirect-subclass: the full sentence is false on the code — for an operand TWO levels below
-    the parameter class (`nu + b2`, `Big2(Big(Num))`) the receiver gives up and the swapped attempt answers the operand's own
-    method: `Big`, where CPython computes a `Num`. (Replayed on the real code from the corpus witness.) -/
-theorem user_operator_counterexample : ¬ user_operator_statement := by
-  intro h
+/-- Known finding operator-operand-indirect-subclass: while `try_operation` compares the operand's DIRECT bases only (the shape the
+    translator reads from the source: `InferShape.operandBasesDirect`), the full sentence is false on the code — for an operand TWO
+    levels below the parameter class (`nu + b2`, `Big2(Big(Num))`) the receiver gives up and the swapped attempt answers the
+    operand's own method: `Big`, where CPython computes a `Num`. (Replayed on the real code from the corpus witness.) -/
+theorem user_operator_counterexample : InferShape.operandBasesDirect = true → ¬ user_operator_statement := by
+  intro hflag h
   have := h opWitness.1 opWitness.2 ['N', 'u', 'm'] ['B', 'i', 'g', '2'] ['N', 'u', 'm'] ['_', '_', 'a', 'd', 'd', '_', '_'] .add
     ⟨['_', '_', 'a', 'd', 'd', '_', '_'], .method, .cls ['N', 'u', 'm'] .nil⟩ (.cls ['N', 'u', 'm'] .nil)
     (by decide +kernel) (by decide +kernel) (by decide +kernel) (by decide +kernel) (by decide +kernel) (by decide +kernel) (by decide +kernel)
-  revert this
-  decide +kernel
+  have hne : InferShape.operandBasesDirect = true →
+      tryStepAny opWitness.1 opWitness.2 (.cls ['N', 'u', 'm'] .nil) .add (.cls ['B', 'i', 'g', '2'] .nil) ≠ pyUserOpTy opWitness.1 ['N', 'u', 'm'] .add := by
+    decide +kernel
+  exact hne hflag this
+
+/-- with the repair applied to the source (the translator then reads `operandBasesDirect = false`: all ancestors) the model of the
+    code itself satisfies the full sentence -/
+theorem user_operator_full_when_repaired (hflag : InferShape.operandBasesDirect = false) : user_operator_statement := by
+  intro ct ps lc rc pc d op m p hl hd hm hk hp hpc hr
+  by_cases hrc : rc = pc
+  · exact user_operator_partial hl hd hm hk hp hpc (Or.inl hrc)
+  · refine user_operator_partial hl hd hm hk hp hpc (Or.inr ?_)
+    have hmem : pc ∈ chainOf ct rc := by simpa [subclassOf] using hr
+    simp only [operandCandidates, hflag, Bool.false_eq_true, if_false]
+    -- the chain of `rc` starts with `rc` itself (or is empty): `pc ≠ rc` lies in its tail
+    unfold chainOf at hmem ⊢
+    unfold chainFrom at hmem ⊢
+    split at hmem
+    · simp at hmem
+    · rename_i dcl _
+      simp only [List.mem_cons] at hmem
+      rcases hmem with h | h
+      · exact absurd h.symm hrc
+      · simpa using h
 
 /-- the full sentence holds on the model of the REPAIRED `try_operation` (proposed/C03-operator-operand-indirect-subclass.diff: the
     operand's whole ancestry is compared with the parameter class): an operand of ANY descendant class is accepted by the left
@@ -741,7 +765,7 @@ theorem user_operator_step {ct : ClassTable} {ps : OpParams} {lc rc : Str} {op :
           by_cases hc : (paramAlts p).contains (.cls rc .nil) = true
           · rw [if_pos hc]
           · rw [if_neg hc]
-            have hany : (directBases ct rc).any (fun b => (paramAlts p).contains (.cls b .nil)) = true := by
+            have hany : (operandCandidates ct rc).any (fun b => (paramAlts p).contains (.cls b .nil)) = true := by
               rcases Bool.or_eq_true _ _ |>.mp h with h1 | h2
               · exact absurd h1 hc
               · exact h2
@@ -855,11 +879,11 @@ theorem shape_attr_indexes :
     lookup ['o', 'n', '_', 's', 'p', 'r', 'e', 'a', 'd'] InferShape.attrIndexes = some [0] ∧
     lookup ['o', 'n', '_', 'i', 'n', 'd', 'e', 'x', 'e', 'r'] InferShape.attrIndexes = some [0, 1] ∧
     lookup ['o', 'n', '_', 'd', 'i', 'c', 't'] InferShape.attrIndexes = some [1] ∧ InferShape.attrIndexes.length = 3 ∧
-    InferShape.iteratesIndex = 0 ∧ InferShape.operandBasesDirect = true ∧ InferShape.receiverFirst = true ∧
+    InferShape.iteratesIndex = 0 ∧ InferShape.receiverFirst = true ∧
     (∀ t : Ty, onSpread t = match t.attrs.get? 0 with | some a => .ok a | none => .error .fatal) ∧
     (∀ (t : Ty) (k : Expr), (onIndex (.list t) k).toOption = (Ty.list t).attrs.get? 0) ∧
     (∀ (a b : Ty) (k : Expr), (onIndex (.dict a b) k).toOption = (Ty.dict a b).attrs.get? 1) := by
-  refine ⟨by decide, by decide, by decide, by decide, by decide, by decide, by decide, ?_, fun _ _ => rfl, fun _ _ _ => rfl⟩
+  refine ⟨by decide, by decide, by decide, by decide, by decide, by decide, ?_, fun _ _ => rfl, fun _ _ _ => rfl⟩
   intro t
   unfold onSpread
   cases h : t.attrs <;> rfl
